@@ -1040,9 +1040,10 @@ fn valid_answer_oracle(offer_text: &str, answer_text: &str, ctx: &OracleCtx) -> 
             v.fails.push(format!("section {}: kind {} answered with {}", i, os.kind, as_.kind));
         }
         if os.mid() != as_.mid() {
-            // listed class: the answer drops every a=mid when no BUNDLE group was offered (two or more
-            // sections) or in LegacySip compatibility mode
-            if all_answer_mids_empty && (ctx.cfg.legacy || (!offered_bundle && o.secs.len() > 1)) {
+            // listed class: the answer drops every a=mid when no BUNDLE group was offered and there are two
+            // or more sections or the LegacySip compatibility mode is on (with an offered group the mids are
+            // kept in every mode since ca1331b)
+            if all_answer_mids_empty && !offered_bundle && (ctx.cfg.legacy || o.secs.len() > 1) {
                 v.known.push("mid_dropped_without_bundle".into());
             } else {
                 v.fails.push(format!("section {}: mid {:?} answered with mid {:?}", i, os.mid(), as_.mid()));
